@@ -78,7 +78,7 @@ class _ConcreteScripted:
         return self._rng.normal(m, s, size)
 
 
-def h_sample_prob(ctx, n, r, target):
+def h_sample_prob(ctx, n, r, target, gauge=False):
     """sample(): product of the conditional distributions used for the target
     multi-index equals Y[i] / sum(Y) (non-negative cores, unsert = 0)."""
     d = len(n)
@@ -89,6 +89,11 @@ def h_sample_prob(ctx, n, r, target):
     F = ref_full(Y)
     tot = F.sum()
     ctx.assume(ctx.gt(tot, 0))
+    if gauge and r == 2:
+        # same non-negative tensor carried by mixed-sign cores: G0 A, A^-1 G1 with A = [[1,-1],[0,1]]
+        A = np.array([[ctx.const(1), ctx.const(-1)], [ctx.const(0), ctx.const(1)]], dtype=Y[0].dtype)
+        Ai = np.array([[ctx.const(1), ctx.const(1)], [ctx.const(0), ctx.const(1)]], dtype=Y[0].dtype)
+        Y = [np.einsum('aib,bc->aic', Y[0], A), np.einsum('ab,bic->aic', Ai, Y[1])] + Y[2:]
     g = _gen(ctx, 'audit', script=list(target))
     I = teneva.sample(Y, 1, seed=g, unsert=0.)
     ctx.claim('shape', I.shape == (1, d))
@@ -259,6 +264,9 @@ def instances(tier):
         for tgt in multi_indices(n):
             out.append({'func': 'h_sample_prob', 'params': {'n': n, 'r': r, 'target': list(tgt)},
                         'opts': {'generic_divisors': True}})
+    for tgt in multi_indices([2, 2]):
+        out.append({'func': 'h_sample_prob', 'params': {'n': [2, 2], 'r': 2, 'target': list(tgt), 'gauge': True},
+                    'opts': {'generic_divisors': True}})
     out.append({'func': 'h_sample_shape', 'params': {'n': [2, 2], 'r': 1, 'm': 2}})
     for tgt in multi_indices([2, 2]):
         out.append({'func': 'h_square_prob', 'params': {'n1': 2, 'n2': 2, 'r': 2, 'target': list(tgt)},
@@ -276,7 +284,7 @@ def instances(tier):
     for n, m in ([([2, 3], 3), ([2, 2], 3), ([3], 4), ([3], 2), ([4], 3)] if quick else [([2, 3], 3), ([2, 2], 3), ([3], 4), ([3], 2), ([4], 3), ([3, 2], 5), ([4], 6)]):
         for perm in ('reverse', 'rotate'):
             out.append({'func': 'h_lhs', 'params': {'n': n, 'm': m, 'perm': perm}})
-    for n, r in ([([2, 2], 2), ([2, 2, 2], 2)] if quick else [([2, 2], 2), ([2, 2, 2], 2), ([3, 3], 2), ([3, 3, 3], 3)]):
+    for n, r in ([([2, 2], 2), ([2, 2, 2], 2), ([3, 2], 3)] if quick else [([2, 2], 2), ([2, 2, 2], 2), ([3, 2], 3), ([3, 3], 2), ([3, 3, 3], 3)]):
         out.append({'func': 'h_sample_tt', 'params': {'n': n, 'r': r}})
     out.append({'func': 'h_rand_samplers', 'params': {'n': [2, 3], 'm': 2}})
     return out
